@@ -61,6 +61,10 @@ CLAIMED["C12"] = {
     "text": "Machine-checked proof for EVERY byte string, capacity and stop flag, from every between-calls state (not only reachable ones): the chunked, length, close and no-body readers never return Panic -- the fuelled decoder loops report exhausted fuel as Panic, so this includes termination (measure 2|src| + [state <> Trailer]) -- and on Ok consumed <= offered, produced <= capacity, produced is a subsequence of the consumed prefix (equal to it for length/close), and the new state is again a between-calls state (c12_read*, lifted to any schedule: c12_schedule); the three head parsers never panic for any slot count, used <= offered, builder refusal (name > 65535 bytes) is an error (c12_parsers, c12_builder_*); try_read_100, try_response, read at Call and Flow level never panic given the state's holder and duplicate-free reasons, which they preserve (so the reason list stays within capacity: c12_reasons), try_read_100 under the re-presentation discipline never meets its assertion (c12_discipline); after any such call, Ok or Err, the following proceed does not panic (c12_then_proceed_*); whole server-facing sessions are panic-free (c12_session). Correspondence + oracle: every string over a 20-symbol protocol alphabet up to length 3 (thorough: 4) at 18 parse positions in 6 state classes, grammar-aware mutations of valid exchanges, oversize names/numbers, 129+ fields, five close conditions at once, undisciplined windows; no panic, no hang, counts bounded, subsequence.",
     "design_ref": "DESIGN.md section 7, C12", "note": COMMON_NOTE + " After a failed read the implementation keeps the decoder state reached inside the failed call while the model returns the pre-call state; the property says nothing about results after an error except no panic, so after the first failed read observations are compared as panic/no-panic only, and the theorems hold from every non-Trailer decoder state (the only error sites, read_size and expect_crlf, leave Size resp. CrLf).", "technique": TECH + " (safety for arbitrary inputs from every invariant state; exhaustive small alphabet strings)"}
 
+CLAIMED["C09"] = {
+    "text": "Machine-checked proof: a flow invariant Inv (holder variant and call phase match the typestate tag, reader set and never in the transient Trailer state in RecvBody, status set in Redirect, writer mode consistent with analysis, duplicate-free close reasons, bounded added-header list, absolute effective URI, request not taken) holds for flow_new and is preserved by every operation of Flow.v, none of which returns Panic under it (c09_new, one lemma per operation); lifted to Script.step -- the step function the correspondence check executes -- and by induction to histories of ANY length over all 42 operations incl. premature proceed and the single-call API: no observation is `panic` and the invariant holds after every prefix (c09_step, c09_history*), so a flow that advanced is fully usable (c09_usable); in each state with a readiness query can_proceed = true <-> proceed yields a new state, = false <-> proceed returns None, never Err/Panic (c09_ready_iff, c09_await_100_proceed); the successor of every edge is the one the documented graph prescribes, the one after the response head being C06's (c09_successor, c09_successor_c06, c09_body_due). Excluded, explicitly: the known finding F18 (second as_new_flow on one Redirect flow: c09_known_refuted) and three misuses outside every quantifier (request URI without scheme/authority, more than 62 added headers, a bare 100 offered to try_read_100 after a refusal of a different window). Correspondence + oracle: guided walks plus model-pruned BFS over op sequences on a menu of request configurations x server behaviours with premature proceed in every state.",
+    "design_ref": "DESIGN.md section 7, C09", "note": COMMON_NOTE + " Known finding F18 listed in known_findings.txt.", "technique": TECH + " (invariant by induction over operation histories)"}
+
 NOT_YET = {}
 ALL = ["C%02d" % i for i in range(1, 21)]
 
